@@ -42,10 +42,10 @@ numbers of views 4k / 4k+2 (odd: refused), z origins off by whole planes, anisot
 every segment with full ranges and axial+tangential sub-ranges, and projection data smaller than the set-up geometry.
 Found there: the half-plane term dropped at tangential position 0 in `forward_project_all_symmetries_2D` (repaired in /repo),
 `+=` instead of overwriting the viewgrams, the `plus_90` routines used at 45 degrees for non-square voxels, and the hard-coded
-two planes per ring in `proj_Siddon` (the last two: known candidates with proposed repairs `build/fixes/C04-1.diff`, `C04-2.diff`).
+two planes per ring in `proj_Siddon` (the last two: known candidates with proposed repairs `docs/fixes/C04-1.diff`, `C04-2.diff`).
 Round 3 (image grids whose first plane is not 0): `proj_Siddon` tests `plane >= 0` instead of `plane >= min_index`, so planes
 of negative index are ignored and memory before a positive first plane is read (known candidate
-`on-the-fly-raytracing:image-first-plane-not-0`, proposed repair `build/fixes/C04-4.diff`).
+`on-the-fly-raytracing:image-first-plane-not-0`, proposed repair `docs/fixes/C04-4.diff`).
 
 Round 4 (field of view x symmetries): which voxels a row of `ProjMatrixByBinUsingRayTracing` contains is decided by the two
 end points `min_a`, `max_a` that `ray_trace_one_lor` computes on the border of the cylindrical or the SQUARE field of view
